@@ -32,6 +32,10 @@ _safe_texts = _texts.filter(lambda s: "\x00" not in s and not any(0xD800 <= ord(
 
 
 def _values(t: str) -> st.SearchStrategy[Any]:
+    if t == "dict_utf8":  # additive (C29): dictionary-encoded columns share the value domains of their value type
+        t = "utf8"
+    if t == "dict_int64":
+        t = "int64"
     if t == "int64" or t == "int":
         return st.one_of(st.sampled_from([0, 1, -1, 2**63 - 1, -(2**63)]), st.integers(-(2**63), 2**63 - 1))
     if t == "opt_int":
@@ -111,7 +115,9 @@ def _header(draw: st.DrawFn) -> dict[str, Any] | None:
 
 
 @st.composite
-def _method(draw: st.DrawFn, idx: int, kinds: list[str], faults: bool, dense_logs: bool) -> dict[str, Any]:
+def _method(
+    draw: st.DrawFn, idx: int, kinds: list[str], faults: bool, dense_logs: bool, init_faults: bool | None = None, min_steps: int = 0
+) -> dict[str, Any]:
     kind = draw(st.sampled_from(kinds))
     params = draw(_params())
     m: dict[str, Any] = {"name": f"m{idx}_{draw(_ident_tail)}".rstrip("_"), "kind": kind, "params": params}
@@ -131,7 +137,7 @@ def _method(draw: st.DrawFn, idx: int, kinds: list[str], faults: bool, dense_log
     m["header"] = draw(_header())
     m["out_cols"] = draw(_cols())
     init_ops: list[st.SearchStrategy[dict[str, Any]]] = [st.just({"op": "ok"})] * 4 + [_raise_action]
-    if faults:
+    if faults if init_faults is None else init_faults:
         init_ops.append(st.just({"op": "not_a_stream"}))
         if m["header"] is not None:
             init_ops.append(st.just({"op": "header_none"}))
@@ -147,7 +153,7 @@ def _method(draw: st.DrawFn, idx: int, kinds: list[str], faults: bool, dense_log
         if faults:
             step_ops.append(st.just({"op": "nothing"}))
         m["steps"] = draw(
-            st.lists(st.fixed_dictionaries({"logs": _logs(2, dense=dense_logs), "action": st.one_of(*step_ops)}), min_size=0, max_size=6)
+            st.lists(st.fixed_dictionaries({"logs": _logs(2, dense=dense_logs), "action": st.one_of(*step_ops)}), min_size=min_steps, max_size=6)
         )
     else:
         m["in_cols"] = draw(_cols(allow_empty=False))
@@ -155,7 +161,7 @@ def _method(draw: st.DrawFn, idx: int, kinds: list[str], faults: bool, dense_log
         if faults:
             resp_ops += [st.just({"op": "finish"}), st.just({"op": "nothing"})]
         m["responses"] = draw(
-            st.lists(st.fixed_dictionaries({"logs": _logs(2, dense=dense_logs), "action": st.one_of(*resp_ops)}), min_size=0, max_size=5)
+            st.lists(st.fixed_dictionaries({"logs": _logs(2, dense=dense_logs), "action": st.one_of(*resp_ops)}), min_size=min_steps, max_size=5)
         )
     return m
 
@@ -187,9 +193,11 @@ def program_specs(
     dense_logs: bool = False,
     max_methods: int = 3,
     max_calls: int = 5,
+    init_faults: bool | None = None,
+    min_steps: int = 0,
 ) -> dict[str, Any]:
     n = draw(st.integers(1, max_methods))
-    methods = [draw(_method(i, list(kinds), faults, dense_logs)) for i in range(n)]
+    methods = [draw(_method(i, list(kinds), faults, dense_logs, init_faults, min_steps)) for i in range(n)]
     calls = draw(st.lists(_call(methods, early_exit), min_size=1, max_size=max_calls))
     return {"methods": methods, "calls": calls}
 
@@ -390,7 +398,7 @@ def model_call(spec: dict[str, Any], call: dict[str, Any]) -> dict[str, Any]:
             n = inp if isinstance(inp, int) else (len(next(iter(inp.values()))) if inp else 0)
             cols = m["out_cols"]
             rows: Any = {
-                c["name"]: [{"int64": n, "float64": float(n), "utf8": str(n), "binary": str(n).encode(), "bool": n > 0}[c["type"]]]
+                c["name"]: [{"int64": n, "float64": float(n), "utf8": str(n), "binary": str(n).encode(), "bool": n > 0, "dict_utf8": str(n), "dict_int64": n}[c["type"]]]
                 for c in cols
             }
             obs["batches"].append(_mbatch(cols, rows if cols else 1, None))
